@@ -2,14 +2,19 @@ package main
 
 import (
 	"fmt"
+	"io"
+	stdlog "log"
 	"net/http"
 	"net/http/httptest"
 	"net/url"
+	"sync"
 	"path/filepath"
 	"strings"
 	"time"
 
 	"github.com/uber/kraken/core"
+	klog "github.com/uber/kraken/utils/log"
+	"go.uber.org/zap"
 	"verifharness/hlib"
 )
 
@@ -170,7 +175,7 @@ func (n *c32node) withScript(tag string, ex []c32ea, f func()) {
 }
 
 func c32exec(n *c32node, cfg c32cfg, o c32op) c32obs {
-	tag := c32tag(o.t)
+	tag := n.tag(o.t)
 	et := url.PathEscape(tag)
 	ob := c32obs{dig: -1}
 	n.fs.fault = 0
@@ -323,16 +328,52 @@ type c32result struct {
 	err   string
 }
 
+// nodes are reused across cases of the same configuration; every case gets its own tag names,
+// and leaves no write-back task behind
+type c32pool struct {
+	base  string
+	nodes map[c32cfg]*c32node
+	seq   int
+}
+
+func (p *c32pool) get(cfg c32cfg) (*c32node, error) {
+	p.seq++
+	if n, ok := p.nodes[cfg]; ok {
+		n.caseSeq = p.seq
+		return n, nil
+	}
+	n, err := newC32node(filepath.Join(p.base, fmt.Sprintf("node%d", p.seq)), cfg.wt, cfg.att-1, cfg.ns)
+	if err != nil {
+		return nil, err
+	}
+	n.caseSeq = p.seq
+	p.nodes[cfg] = n
+	return n, nil
+}
+
+func (p *c32pool) discard(cfg c32cfg) {
+	if n, ok := p.nodes[cfg]; ok {
+		n.close()
+		delete(p.nodes, cfg)
+	}
+}
+
+func (p *c32pool) close() {
+	for cfg := range p.nodes {
+		p.discard(cfg)
+	}
+}
+
 // run executes a history; next is consulted after every operation (nil: ops is complete).
-func c32run(dir string, cfg c32cfg, ops []c32op, next func(done []c32op, obs []c32obs) (c32op, bool)) c32result {
+func c32run(p *c32pool, cfg c32cfg, ops []c32op, next func(done []c32op, obs []c32obs) (c32op, bool)) c32result {
 	r := c32result{cfg: cfg}
-	n, err := newC32node(dir, cfg.wt, cfg.att-1, cfg.ns)
+	n, err := p.get(cfg)
 	if err != nil {
 		r.incon, r.err = true, err.Error()
 		return r
 	}
-	defer n.close()
 	succ := map[int]bool{}
+	used := map[int]bool{}
 	step := func(o c32op) {
 		if o.k == c32Put || o.k == c32DupPut {
 			// a synchronous put must find an answer for every attempt it can make
@@ -340,6 +381,7 @@ func c32run(dir string, cfg c32cfg, ops []c32op, next func(done []c32op, obs []c
 				o.ex = append(o.ex, c32ok)
 			}
 		}
+		used[o.t] = true
 		ob := c32exec(n, cfg, o)
 		r.ops = append(r.ops, o)
 		r.obs = append(r.obs, ob)
@@ -362,6 +404,17 @@ func c32run(dir string, cfg c32cfg, ops []c32op, next func(done []c32op, obs []c
 			break
 		}
 		step(o)
+	}
+	// leave no task behind (not part of the case)
+	for t := range used {
+		if _, stored := n.task(n.tag(t)); stored {
+			if ob := c32exec(n, cfg, c32execop(t, c32ok)); ob.res != "ROk" {
+				r.incon = true
+			}
+		}
+	}
+	if r.incon {
+		p.discard(cfg)
 	}
 	return r
 }
@@ -515,17 +568,25 @@ func c32randOp(r *hlib.Rng, cfg c32cfg, nt, nd int, obs []c32obs, ops []c32op) c
 	}
 }
 
+// one case to run: its result depends only on the job (own PRNG fork), not on the worker
+type c32job struct {
+	run  func(p *c32pool) c32result
+	kind string
+	tags []string
+}
+
+const c32workers = 6
+
 func c32(ctx *hlib.Ctx) {
+	klog.SetGlobalLogger(zap.NewNop().Sugar())
+	stdlog.SetOutput(io.Discard) // goose migration chatter
 	r := hlib.NewRng(ctx.Seed)
-	seq := 0
-	dir := func() string {
-		seq++
-		return filepath.Join(ctx.Tmp, fmt.Sprintf("n%d", seq))
-	}
+	var jobs []c32job
 	wt := func(att int) c32cfg { return c32cfg{wt: true, att: att, ns: true} }
 	as := c32cfg{wt: false, att: 3, ns: true}
 	seed := func(cfg c32cfg, ops []c32op, nt int, kind string, tags ...string) {
-		c32emit(ctx, c32run(dir(), cfg, c32drain(ops, nt, !cfg.wt), nil), kind, tags)
+		full := c32drain(ops, nt, !cfg.wt)
+		jobs = append(jobs, c32job{func(p *c32pool) c32result { return c32run(p, cfg, full, nil) }, kind, tags})
 	}
 	fail := c32ea{false, 1}
 
@@ -557,7 +618,8 @@ func c32(ctx *hlib.Ctx) {
 	}
 	// namespace without a backend: the write-back is dropped
 	seed(c32cfg{wt: true, att: 3, ns: false}, []c32op{c32put(0, 1, 0), c32get(0), c32has(0)}, 1, "seed-no-backend-for-namespace")
-	seed(c32cfg{wt: false, att: 3, ns: false}, []c32op{c32put(0, 1, 0), c32execop(0, c32ok), c32get(0)}, 1, "seed-no-backend-for-namespace-async")
+	// (asynchronous mode without a backend is not driven: the executor drops the task before it
+	// reaches the scripted backend, so the moment of the execution cannot be controlled)
 	// attempts boundary of SyncExec: att failures then a would-be success
 	for att := 2; att <= 4; att++ {
 		p := c32put(0, 1, 0)
@@ -614,7 +676,7 @@ func c32(ctx *hlib.Ctx) {
 			var rec func(prefix []c32op, depth int)
 			rec = func(prefix []c32op, depth int) {
 				if len(prefix) > 0 {
-					c32emit(ctx, c32run(dir(), cfg, c32drain(append([]c32op{}, prefix...), 1, !cfg.wt), nil), "exhaustive", nil)
+					seed(cfg, append([]c32op{}, prefix...), 1, "exhaustive")
 				}
 				if depth == 0 {
 					return
@@ -630,7 +692,13 @@ func c32(ctx *hlib.Ctx) {
 	// ---- random histories ----
 	for i := 0; i < ctx.N; i++ {
 		cr := r.Fork()
-		cfg := c32cfg{wt: cr.Bool(), att: 2 + cr.Intn(3), ns: !cr.Chance(7)}
+		cfg := c32cfg{wt: cr.Bool(), att: 2 + cr.Intn(3), ns: true}
+		if cfg.wt && cr.Chance(12) {
+			cfg.ns = false
+		}
+		if !cfg.wt {
+			cfg.att = 3 // SyncExec is not used in asynchronous mode
+		}
 		nt := 1 + cr.Intn(3)
 		nd := 2 + cr.Intn(2)
 		n := cr.Range(3, 14)
@@ -641,27 +709,52 @@ func c32(ctx *hlib.Ctx) {
 		if !cfg.ns {
 			kind += "-nobackend"
 		}
-		var drain []c32op
-		res := c32run(dir(), cfg, nil, func(done []c32op, obs []c32obs) (c32op, bool) {
-			if len(done) < n {
-				return c32randOp(cr, cfg, nt, nd, obs, done), true
+		jobs = append(jobs, c32job{func(p *c32pool) c32result {
+			var drain []c32op
+			return c32run(p, cfg, nil, func(done []c32op, obs []c32obs) (c32op, bool) {
+				if len(done) < n {
+					return c32randOp(cr, cfg, nt, nd, obs, done), true
+				}
+				if drain == nil {
+					drain = c32drain(nil, nt, !cfg.wt)
+				}
+				j := len(done) - n
+				if j < len(drain) {
+					return drain[j], true
+				}
+				return c32op{}, false
+			})
+		}, kind, nil})
+	}
+
+	// ---- run on a few workers (each with its own nodes), emit in job order ----
+	results := make([]c32result, len(jobs))
+	var wg sync.WaitGroup
+	nextJob := make(chan int)
+	for w := 0; w < c32workers; w++ {
+		wg.Add(1)
+		go func(w int) {
+			defer wg.Done()
+			pool := &c32pool{base: filepath.Join(ctx.Tmp, fmt.Sprintf("w%d", w)), nodes: map[c32cfg]*c32node{}}
+			defer pool.close()
+			for i := range nextJob {
+				results[i] = jobs[i].run(pool)
 			}
-			if drain == nil {
-				drain = c32drain(nil, nt, !cfg.wt)
-			}
-			j := len(done) - n
-			if j < len(drain) {
-				return drain[j], true
-			}
-			return c32op{}, false
-		})
-		var tags []string
-		for _, o := range res.ops {
+		}(w)
+	}
+	for i := range jobs {
+		nextJob <- i
+	}
+	close(nextJob)
+	wg.Wait()
+	for i, j := range jobs {
+		tags := j.tags
+		for _, o := range results[i].ops {
 			if o.k == c32BkSet {
 				tags = append(tags, "bkset")
 				break
 			}
 		}
-		c32emit(ctx, res, kind, tags)
+		c32emit(ctx, results[i], j.kind, tags)
 	}
 }
